@@ -5,7 +5,7 @@ CLASSES = [
     ClassDecl("Commit", file="utils/git.py", qual="Git.Commit", fields={"_hash": "str", "_has_changes": "bool"}),
     ClassDecl("Version", file="execution/version_index.py",
               fields={"_timestamp": "int", "_commit_hash": "Opt[str]", "_has_uncommitted_changes": "bool"}),
-    ClassDecl("VersionIndex", file="execution/version_index.py", fields={"_last_timestamp": "int"}),
+    ClassDecl("VersionIndex", file="execution/version_index.py", fields={"_last_timestamp": "int", "_conn": "SqliteConnection"}),
     ClassDecl("BaseException", exception=True, bases=[]),
     ClassDecl("ConductorError", file="errors/base.py", exception=True, bases=["BaseException"],
               ghost={"file_context_set": "bool", "extra_context_set": "bool"}),
